@@ -19,10 +19,12 @@
 (* produce is an initial segment of some behaviour.                        *)
 (*                                                                         *)
 (* Arithmetic is exact.  Rows are lattice points.  A centroid is the       *)
-(* rational vector cnum[c] / cden[c].  Distortions are kept as numerators  *)
-(* over the fixed denominator LCM^2, LCM a common multiple of 1..MaxN      *)
-(* (every cden is a cluster size), so they are compared as integers;       *)
-(* -1 stands for T::max_value().                                           *)
+(* rational vector cnum[c] / cden[c].  A distortion is an exact rational   *)
+(* <<num, den>>: all squared distances of one sweep are brought to the     *)
+(* common denominator DenAll = PROD_c cden[c]^2; two distortions are       *)
+(* compared Euclid-style (KMeansProps!RatLess) so that no cross product is *)
+(* formed and 32-bit integers suffice for up to ~15 rows with k = 3.       *)
+(* <<-1, 1>> stands for T::max_value().                                    *)
 (*                                                                         *)
 (* Checked by TLC on every behaviour of the scope:                         *)
 (*   FitCorrect    every terminal state satisfies the property clause      *)
@@ -49,7 +51,8 @@ CONSTANTS
     MaxN,       \* at most this many rows
     Ks,         \* set of k
     MaxIters,   \* set of max_iter values
-    LCM,        \* common multiple of 1..MaxN
+    FullLayer,  \* TRUE: the one data set made of ALL rows of the scope, once each, in canonical order
+                \*   (with RowSum > 0: every integer point of a simplex layer)
     Replay,     \* TRUE: print one REPLAY line per terminal state
     ShowEmpty,  \* TRUE: print one INFO line per state in which an assignment step left a cluster empty
     ShowSwap,   \* TRUE: print one INFO line per state in which a sweep exchanged members of a cluster
@@ -57,7 +60,6 @@ CONSTANTS
     RowSum      \* > 0: only rows whose coordinates add up to RowSum ("composition" data: integer points
                 \*   of a simplex layer, anti-diagonals); 0: no restriction
 
-ASSUME \A m \in 1..MaxN : LCM % m = 0
 
 VARIABLES
     data, k, maxIter,
@@ -66,7 +68,7 @@ VARIABLES
     cur,        \* seeding: row number of the seed drawn last
     dmin,       \* seeding: d[i], squared distance to the nearest seed so far (-1 = max_value)
     y, size, cnum, cden, sums,
-    distortion, \* best distortion so far (numerator over LCM^2; -1 = max_value)
+    distortion, \* best distortion so far, <<num, den>>; <<-1, 1>> = max_value
     newdist,    \* distortion returned by the assignment step of this iteration
     it,         \* number of assignment steps made
     tab, near   \* assignment step: distance table and per-row sets of nearest labels
@@ -74,7 +76,8 @@ VARIABLES
 vars == <<data, k, maxIter, pc, j, cur, dmin, y, size, cnum, cden, sums, distortion, newdist, it, tab, near>>
 
 N == Len(data)
-Point == [1..Dim -> Vals]
+(* rows of the scope: all lattice points, or (RowSum > 0) only those on the layer x1 + .. + xd = RowSum *)
+Point == { p \in [1..Dim -> Vals] : RowSum = 0 \/ SumTo(p, Dim) = RowSum }
 
 RECURSIVE LexLeq(_, _, _)
 LexLeq(p, q, c) == IF c > Dim THEN TRUE
@@ -134,15 +137,28 @@ Measure ==
     /\ pc' = "choose"
     /\ UNCHANGED <<data, k, maxIter, j, cur, dmin, y, size, cnum, cden, sums, distortion, newdist, it>>
 
+(* all labellings that give every row one of its nearest labels: the product of the sets near[i]
+   (built row by row, so its cost is the number of admissible labellings, not k^N) *)
+RECURSIVE Choices(_, _)
+Choices(ns, i) == IF i = 0 THEN { <<>> }
+                  ELSE { Append(s, c) : s \in Choices(ns, i - 1), c \in ns[i] }
+
+(* common denominator of the squared distances of one sweep *)
+RECURSIVE ProdSq(_, _)
+ProdSq(v, i) == IF i = 0 THEN 1 ELSE v[i] * v[i] * ProdSq(v, i - 1)
+DenAll == ProdSq(cden, k)
+
+DMax == <<-1, 1>>
+DLeq(a, b) == RatLeq(a[1], a[2], b[1], b[2])
+
 (* bbd.clustering(), second half -- by contract: every row goes to ONE OF its
    nearest centroids (any), size / sums / dist are those induced *)
 Assign ==
     /\ pc = "choose"
-    /\ \E yy \in [1..N -> 0..(k - 1)] :
-          /\ \A i \in 1..N : yy[i] \in near[i]
-          /\ y' = yy
-    /\ newdist' = SumTo([i \in 1..N |->
-                           tab[i][y'[i] + 1] * (LCM \div cden[y'[i] + 1]) * (LCM \div cden[y'[i] + 1])], N)
+    /\ \E yy \in Choices(near, N) : y' = yy
+    /\ newdist' = << SumTo([i \in 1..N |->
+                              tab[i][y'[i] + 1] * (DenAll \div (cden[y'[i] + 1] * cden[y'[i] + 1]))], N),
+                      DenAll >>
     /\ size' = [c \in 1..k |-> CountOf(y', c - 1)]
     /\ sums' = ClusterSums(data, y', k, Dim)
     /\ it' = it + 1
@@ -157,7 +173,7 @@ NewDen == [c \in 1..k |-> IF size[c] > 0 THEN size[c] ELSE cden[c]]
 (* `if distortion <= dist { break }` *)
 UpdateStop ==
     /\ pc = "update"
-    /\ distortion # -1 /\ distortion <= newdist
+    /\ distortion # DMax /\ DLeq(distortion, newdist)
     /\ cnum' = NewNum /\ cden' = NewDen
     /\ pc' = "done"
     /\ UNCHANGED <<data, k, maxIter, j, cur, dmin, y, size, sums, distortion, newdist, it, tab, near>>
@@ -165,7 +181,7 @@ UpdateStop ==
 (* `else { distortion = dist }`, next round of the for loop -- or its end *)
 UpdateGo ==
     /\ pc = "update"
-    /\ distortion = -1 \/ distortion > newdist
+    /\ distortion = DMax \/ ~DLeq(distortion, newdist)
     /\ cnum' = NewNum /\ cden' = NewDen
     /\ distortion' = newdist
     /\ pc' = IF it = maxIter THEN "done" ELSE "assign"
@@ -175,15 +191,17 @@ UpdateGo ==
 Init ==
     /\ k \in Ks
     /\ maxIter \in MaxIters
-    /\ \E n \in 2..MaxN : data \in [1..n -> Point]
+    /\ IF FullLayer
+       THEN data \in { s \in [1..Cardinality(Point) -> Point] :
+                          \A i \in 1..(Cardinality(Point) - 1) : s[i] # s[i + 1] /\ LexLeq(s[i], s[i + 1], 1) }
+       ELSE \E n \in 2..MaxN : data \in [1..n -> Point]
     /\ \A i \in 1..(Len(data) - 1) : LexLeq(data[i], data[i + 1], 1)   \* rows in canonical order
-    /\ RowSum > 0 => \A i \in 1..Len(data) : SumTo(data[i], Dim) = RowSum
     /\ Distinct(data) >= k                       \* the domain of the property
     /\ pc = "seed0" /\ j = 0 /\ cur = 0
     /\ dmin = [i \in 1..Len(data) |-> -1]
     /\ y = [i \in 1..Len(data) |-> 0]
     /\ size = <<>> /\ cnum = <<>> /\ cden = <<>> /\ sums = <<>>
-    /\ distortion = -1 /\ newdist = -1 /\ it = 0
+    /\ distortion = DMax /\ newdist = DMax /\ it = 0
     /\ tab = <<>> /\ near = <<>>
 
 Next == SeedFirst \/ SeedNext \/ SeedLast \/ Measure \/ Assign \/ UpdateStop \/ UpdateGo
@@ -209,7 +227,7 @@ FitCorrect ==
 
 SeedingSound == pc \in {"assign", "choose", "update", "done"} => \A c \in 1..k : cden[c] > 0
 
-Monotone == (pc = "update" /\ distortion # -1) => newdist <= distortion
+Monotone == (pc = "update" /\ distortion # DMax) => DLeq(newdist, distortion)
 
 Bounded == it <= maxIter /\ (Done => it >= 1)
 
@@ -240,6 +258,9 @@ EmitEmpty ==
 (***************************************************************************)
 SwapSeen ==
     /\ pc = "update" /\ it >= 2
+    \* no row was tied in this sweep: the exchange is forced by the centroids, not an artefact of
+    \* the model resolving the same tie differently in two sweeps (the real tree is deterministic)
+    /\ \A i \in 1..N : Cardinality(near[i]) = 1
     /\ \E c \in 1..k : /\ size[c] > 0 /\ size[c] = cden[c]
                        /\ SumTo(sums[c], Dim) = SumTo(cnum[c], Dim)
                        /\ sums[c] # cnum[c]
